@@ -158,7 +158,9 @@ def run(db, cx):
         tid = [ev for (_b, _i, ev) in f.events("write")
                if path_leaf(ev.get("path")) == C + "StepStateDataImpl::track_id"]
         if pt == "post":
-            ok = len(tid) == 1 and "inactive" in tid[0].get("refs", []) and \
+            inact = set(e.get("var") for (_b, _i, e) in f.events("def")
+                        if "E:" + C + "TrackStatus::inactive" in e.get("refs", []))
+            ok = len(tid) == 1 and bool(inact & set(tid[0].get("refs", []))) and \
                 C + "SimTrackView::track_id" in tid[0].get("calls", [])
             cx.ob("C17.3-gather", "post gather marks every slot: track_id = inactive ? null : id", ok,
                   tid[0].get("rhs") if tid else "no write", short(f.loc),
@@ -168,7 +170,9 @@ def run(db, cx):
                 if path_leaf(ev.get("path")) == C + "StepStateDataImpl::detector"]
         if pt == "pre":
             src = [ev for (_b, _i, ev) in dets if "F:" + C + "StepParamsData::detector" in ev.get("refs", [])]
-            ok = len(src) == 1 and "vol" in src[0].get("refs", [])
+            volv = set(e.get("var") for (_b, _i, e) in f.events("def")
+                       if C + "OrangeTrackView::volume_id" in e.get("calls", []))
+            ok = len(src) == 1 and bool(volv & set(src[0].get("refs", [])))
             cx.ob("C17.4-filters", "detector id is taken from the pre-step volume", ok,
                   src[0].get("rhs") if src else "no write", short(f.loc),
                   why="the detector a step belongs to is where the step started")
@@ -195,7 +199,8 @@ def run(db, cx):
                 lf = path_leaf(ev.get("path"))
                 if lf and lf.startswith(C + rec + "::") and ev.get("op") == "|=":
                     x = lf.split("::")[-1]
-                    w[x] = "F:" + C + rec + "::" + x in ev.get("refs", []) and "other" in ev.get("refs", [])
+                    w[x] = "F:" + C + rec + "::" + x in ev.get("refs", []) and \
+                        f.r["params"][0]["n"] in ev.get("refs", [])
             for x in flags:
                 cx.ob("C17.5-selection-ops", "%s::operator|= merges %s" % (rec, x), w.get(x) is True,
                       "", short(f.loc),
